@@ -119,6 +119,15 @@ def make_onepass():
             sg = g('_signer')
             r.oblige(s, 'names-issuer/p%d' % pi, z3.And(z3.BoolVal(isinstance(sg, E.VStr) and sg.z is not None), sg.z == SIGNER if isinstance(sg, E.VStr) and sg.z is not None else z3.BoolVal(False)))
             r.oblige(s, 'flag-clear-by-default/p%d' % pi, z3.Not(ex.truth(g('nested'), s)))
+            # no hidden state: PGPMessage.__iter__ marks the packet it got (`nested = True` on all but the last); a later call must
+            # not hand that marked packet out again
+            s.heap[(v.ref, 'nested')] = E.VBool(True)
+            for qi, (s2, v2) in enumerate(ex.call_func(E.VFunc(r.node, None, cls=r.dcls, self_val=sig, mod=r.mod), [], {}, s, {'mod': r.mod})):
+                if isinstance(v2, E.Raise):
+                    r.oblige(s2, 'second-call:safety(%s)/p%d.%d' % (v2.exc.split(':')[0], pi, qi), z3.BoolVal(False), v2.where)
+                    continue
+                r.oblige(s2, 'second-call:a-packet-whose-flag-is-clear-whatever-was-done-to-the-first/p%d.%d' % (pi, qi),
+                         z3.And(z3.BoolVal(isinstance(v2, E.VObj) and v2.cls == OPS), z3.Not(ex.truth(s2.heap.get((v2.ref, 'nested')), s2)) if isinstance(v2, E.VObj) else z3.BoolVal(False)))
         return r.result()
     return Scenario(label, 'pgpy.pgp.PGPSignature.make_onepass', gen, props=('C20',))
 
